@@ -504,10 +504,11 @@ impl FileStateMachine {
         let mut pos = 0;
         let mut operations = Vec::new();
         let mut replayed_count = 0;
+        let mut highest_replayed: Option<LogId> = None;
 
         while pos + 17 < buffer.len() {
             // Read entry index (8 bytes)
-            let _index = u64::from_be_bytes(buffer[pos..pos + 8].try_into().unwrap());
+            let index = u64::from_be_bytes(buffer[pos..pos + 8].try_into().unwrap());
             pos += 8;
 
             // Read entry term (8 bytes)
@@ -601,6 +602,8 @@ impl FileStateMachine {
 
             operations.push((op_code, key, value, term, expire_at_secs));
             replayed_count += 1;
+            // Only fully parsed entries count: the data restored below contains exactly these.
+            highest_replayed = Some(LogId { index, term });
         }
 
         info!(
@@ -699,11 +702,21 @@ impl FileStateMachine {
             replayed_count, applied_count, skipped_expired
         );
 
+        // The WAL holds the entries applied after the last checkpoint, so the restored data
+        // reflects them. Report them as applied; otherwise the node would apply them twice.
+        if let Some(log_id) = highest_replayed {
+            if log_id.index > self.last_applied_index.load(Ordering::SeqCst) {
+                self.update_last_applied(log_id);
+            }
+        }
+
         // Unconditionally clear WAL after replay. load_data() already restored the last
         // checkpoint; WAL is only the post-checkpoint delta. Even if 0 entries were applied
         // (e.g. truncated tail only), the WAL is stale. Keeping it would cause infinite
         // replay-of-the-same-truncated-entry on every subsequent startup.
-        self.clear_wal_async().await?;
+        // The replayed entries now live only in memory, so checkpoint them (data + metadata)
+        // before the WAL that carried them is cleared.
+        self.checkpoint().await?;
         debug!(
             "Cleared WAL after replay ({} operations applied)",
             applied_count
